@@ -250,7 +250,8 @@ def fault_strategy(draw):
         c = pick(hedc)
         doc[c]["HED"] = draw(st.sampled_from([3, None, ["Red", "Blue"], True, 2.5]))
     elif fault == "value_no_hash":
-        c = pick(val)
+        referenced = [k for k in val if any("{" + k + "}" in x for col in hedc for x in _strings(col))]
+        c = pick(referenced or val)       # a column that another column references, when there is one
         doc[c]["HED"] = doc[c]["HED"].replace("/#", "/3")
     elif fault == "value_two_hash":
         c = pick(val)
